@@ -83,6 +83,8 @@ def _gmm_structure(log, X, y, loc, cov, pvals, n, where, tag="gmm"):
         return v, False, 1
     draws = []
     for k, (_, rq, a) in enumerate(comps):
+        if (d == 1 and np.size(rq["loc"]) != 1) or (d > 1 and (np.shape(rq["mean"]) != (d,) or np.shape(rq["cov"]) != (d, d))):
+            return v, False, 1          # requests of another shape: pattern not recognised
         if d == 1:
             ok = np.allclose(rq["loc"].reshape(-1), loc[k], rtol=1e-12) and np.allclose(rq["scale"].reshape(-1), np.sqrt(cov[k].reshape(-1)), rtol=1e-12)
             doc = {"mean": loc[k], "std": np.sqrt(cov[k].reshape(-1))}
@@ -177,6 +179,35 @@ def _moments_gmm(loc, cov, pvals, d, where, n=20000, seed=123):
                 if not _band(est, C[j, l], sd, nk):
                     v.append(violation("moments_component_covariance_off", {"component": k, "entry": [j, l], "observed": est, "documented": C[j, l]}, part="moments", **where))
     return v
+
+
+def separated_case(case):
+    """Distribution-free label consistency: components far apart and very tight, ALL scripted label vectors - every sample must lie next
+    to the mean of the component named by its label, whatever way the implementation asks the random source."""
+    fn, K, d, n, labels, seed = case
+    from gemclus import data as Dm
+    rec = Recorder(seed, labels=labels)
+    where = dict(fn=fn, K=K, d=d, n=n)
+    if fn == "draw_gmm":
+        loc = np.array([[100.0 * (k + 1) * (1 if j % 2 == 0 else -1) for j in range(d)] for k in range(K)])
+        cov = np.array([[1e-6 * (k + 1)] for k in range(K)]) if d == 1 else np.array([np.eye(d) * 1e-6 * (k + 1) for k in range(K)])
+        X, y = Dm.draw_gmm(n, loc, cov, np.ones(K) / K, rec)
+        centres, cols = loc, slice(0, d)
+    else:
+        mu = 200.0
+        X, y = Dm.celeux_one(n, 2, mu, rec)
+        centres, cols = np.array([np.ones(5) * mu, -np.ones(5) * mu, np.zeros(5)]), slice(0, 5)
+    v = []
+    if not np.array_equal(y, np.asarray(labels)):
+        v.append(violation("labels_are_not_the_drawn_components", {"returned": y, "drawn": labels}, part="separated", **where))
+    else:
+        for i in range(n):
+            tol_ = 0.1 if fn == "draw_gmm" else 10.0
+            if np.abs(X[i, cols] - centres[int(y[i])]).max() > tol_:
+                v.append(violation("sample_far_from_the_component_named_by_its_label", {"i": i, "label": int(y[i]), "sample": X[i, cols], "component_mean": centres[int(y[i])]},
+                                   part="separated", **where))
+                break
+    return {"v": v, "nt": [case], "stats": {"evals": 1, "traces": 1, "states": 1, "transitions": 1}, "sample": {"fn": fn, "K": K, "d": d, "labels": labels}}
 
 
 def moments_case(case):
@@ -432,6 +463,8 @@ def explorers(tier, seed):
           ("seeds", ("multivariate_student_t", (6, [0.0, 1.0], I2, 3))), ("seeds", ("gstm", (9, 2, 1))), ("seeds", ("gstm", (4, 1.5, 2.5))),
           ("seeds", ("celeux_one", (6, 2, 1.7))), ("seeds", ("celeux_two", (5,))), ("seeds", ("celeux_one", (1, 1, 0.3))), ("seeds", ("celeux_two", (1,)))] + \
          [("reject", r) for r in REJECT]
+    c7 = [("draw_gmm", K, d, n, list(lab), seed) for K in (2, 3, 4) for d in (1, 2) for n in (1, 2, 3, 4) for lab in itertools.product(range(K), repeat=n) if K ** n <= 300] + \
+         [("celeux_one", 3, 5, n, list(lab), seed) for n in (1, 2, 3, 4) for lab in itertools.product(range(3), repeat=n)]
     c6 = [("draw_gmm", K, d, seed) for K in (2, 3) for d in (1, 2)] + [("student", 2, d, seed) for d in (2, 3)]
     return [
         Explorer("draw_gmm_all_label_vectors", "props.c20", "gmm_case", c1, kind="choices", chunk=64, floor=100,
@@ -448,6 +481,9 @@ def explorers(tier, seed):
                       "requests, intercepts/b-matrix/noise covariance tables, independent N((3.2,3.6,4),I) columns"),
         Explorer("seeds_shapes_rejections", "props.c20", "misc_case", c5, chunk=4, floor=10,
                  rule="identical output for identical integer seeds, shapes, label ranges; rejection menu of parameter sets that do not describe a mixture"),
+        Explorer("separated_components_all_label_vectors", "props.c20", "separated_case", c7, kind="choices", chunk=64, floor=100,
+                 rule="draw_gmm (K<=4, d<=2, n<=4) and celeux_one with far-apart, tight components and ALL scripted label vectors (empty components included): "
+                      "each sample lies next to the mean of the component its label names - independent of how the random source is asked"),
         Explorer("moment_backstop", "props.c20", "moments_case", c6, chunk=1, floor=4, exhaustive=False,
                  rule="seeded n=20000 moment check with 6-sigma bands (backstop only; also the arbiter when the request pattern is not recognised)"),
     ]
